@@ -199,7 +199,8 @@ Section Api.
     end.
 
   Definition sk_split (sk : F) (threshold limit : nat) (seed : bytes) : M (res (list share)) :=
-    if Nat.ltb limit threshold then ret_err VsssError
+    if Nat.ltb 255 limit then ret_err VsssError          (* blsful: one-byte identifiers *)
+    else if Nat.ltb limit threshold then ret_err VsssError
     else if Nat.ltb threshold 2 then ret_err VsssError
     else
       cs <- fill_coeffs (threshold - 1) seed 0 ;;
@@ -251,7 +252,9 @@ Section Api.
     : M (res tl_ct * nat) :=
     if is_id pk then Val (Err InvalidInputs, w)
     else
-      r <- tl_seal O dbg pk msg id (dst_of s) (ent w) ;;
+      (* message augmentation: the identifier is hashed with the public-key prefix *)
+      let id' := match s with Aug => pk_bytes O pk ++ id | _ => id end in
+      r <- tl_seal O dbg pk msg id' (dst_of s) (ent w) ;;
       Val (match r with
            | Ok (u, v, wp) => Ok (mktlct u v wp s)
            | Err e => Err e
